@@ -1108,7 +1108,12 @@ func (schema *Schema) validate(ctx context.Context, stack []*Schema) ([]*Schema,
 	}
 
 	if v := schema.Default; v != nil && !validationOpts.schemaDefaultsValidationDisabled {
-		if err := schema.VisitJSON(v); err != nil {
+		var visitOpts []SchemaValidationOption
+		if validationOpts.schemaPatternValidationDisabled {
+			// the document's patterns are not to be compiled: not for its defaults either
+			visitOpts = append(visitOpts, DisablePatternValidation())
+		}
+		if err := schema.VisitJSON(v, visitOpts...); err != nil {
 			return stack, fmt.Errorf("invalid default: %w", err)
 		}
 	}
